@@ -5,7 +5,7 @@ import ast
 from typing import Dict, List, Optional, Set, Tuple
 
 from ..cfg import Node
-from ..core import AnalysisError, Func, Ob, bind_args, dotted, kw, need, ob, short, src, walk_no_nested
+from ..core import canon_in, AnalysisError, Func, Ob, bind_args, dotted, kw, need, ob, short, src, walk_no_nested
 from ..flow import node_calls, node_defs
 from ..runner import Ctx, rule
 from .mainmodel import mainmodel
@@ -378,7 +378,7 @@ def _bounded(ctx, f, cfg, n: Node, c: ast.Call, cname: str, other: str) -> Tuple
         if isinstance(s, (ast.Assign, ast.AnnAssign)) and isinstance(getattr(s, "value", None), ast.Call) and \
                 (dotted(s.value.func) or "").split(".")[-1] in ("deque", "Deque") and kw(s.value, "maxlen") is not None:
             t = s.targets[0] if isinstance(s, ast.Assign) else s.target
-            if src(t) == cname and src(kw(s.value, "maxlen")).replace(" ", "") in ("maxcor+1", "1+maxcor"):
+            if src(t) == cname and canon_in(kw(s.value, "maxlen"), "maxcor + 1"):
                 return True, "container constructed with maxlen=maxcor+1"
     posts, pres = [], []
     for t in cfg.nodes:
